@@ -247,16 +247,34 @@ def check_unknown_case(sel):
     return out, {"rejected": int(not out)}
 
 
+def _case(kind, sel):
+    """one case, followed by a look at the list of available steps: it is
+    still the complete list in a valid order (whatever was requested)"""
+    from nanite import preproc
+    fn = {"unknown": check_unknown_case, "sort": check_sort_case}.get(
+        kind, check_apply_case)
+    vs, st = fn(sel)
+    ids, req, opt = _meta()
+    try:
+        av = list(preproc.available())
+        ok = ref_order_ok(av, req, opt) and sorted(av) == sorted(ids)
+    except BaseException as e:
+        if isinstance(e, (KeyboardInterrupt, SystemExit, MemoryError)):
+            raise
+        av, ok = repr(e), False
+    if not ok:
+        vs = vs + [V(PROP, "available-invalid", site="available:after-" + kind,
+                     witness=",".join(sel), detail="after the request the "
+                     f"list of available steps is {av}",
+                     case={"kind": kind, "sel": list(sel)}, kind=kind)]
+    return vs, st
+
+
 def _work(chunk):
     res = []
     for kind, sel in chunk:
         state.restore("nanite.preproc")     # every case starts pristine
-        if kind == "unknown":
-            res.append((kind, sel) + check_unknown_case(sel))
-        elif kind == "sort":
-            res.append((kind, sel) + check_sort_case(sel))
-        else:
-            res.append((kind, sel) + check_apply_case(sel))
+        res.append((kind, sel) + _case(kind, sel))
     return res
 
 
@@ -351,11 +369,7 @@ def replay(doc):
         except BaseException:
             pass
         return check_sort_case(case["sel"])[0]
-    if case["kind"] == "sort":
-        return check_sort_case(case["sel"])[0]
-    if case["kind"] == "unknown":
-        return check_unknown_case(case["sel"])[0]
-    return check_apply_case(case["sel"])[0]
+    return _case(case["kind"], case["sel"])[0]
 
 
 def run(tier):
